@@ -93,4 +93,8 @@ def _get_saved_where_filter(zdir: PathLike, query_name: str) -> Optional[str]:
         where_filter = where_filter.replace(
             f"{{{sub_query_name}}}", sub_where_filter
         )
+    # Keep the alternatives of the saved filter together when it gets spliced
+    # into a larger filter (AND binds tighter than OR).
+    if "|" in where_filter:
+        where_filter = f"({where_filter})"
     return where_filter
